@@ -5,3 +5,9 @@ import TsVerif.C08.Props
 #print axioms TsVerif.C08.make_mut_result
 #print axioms TsVerif.C08.freed_never_reused_edit
 #print axioms TsVerif.C08.freed_never_reused_release
+#print axioms TsVerif.C08.rc_invariant_delete
+#print axioms TsVerif.C08.rc_invariant
+#print axioms TsVerif.C08.no_dangling_no_garbage
+#print axioms TsVerif.C08.edit_isolated
+#print axioms TsVerif.C08.delete_isolated
+#print axioms TsVerif.C08.copy_isolated
